@@ -59,7 +59,8 @@ impl OodFrame {
     /// into `Self::trace_states` (as byte values).
     ///
     /// # Panics
-    /// Panics if evaluation frame has already been set.
+    /// Panics if evaluation frame has already been set, or if the serialized trace states are
+    /// longer than 65535 bytes.
     pub fn set_trace_states<E, H>(&mut self, trace_ood_frame: &TraceOodFrame<E>) -> H::Digest
     where
         E: FieldElement,
@@ -74,6 +75,13 @@ impl OodFrame {
         let frame_size: u8 = 2;
         self.trace_states.write_u8(frame_size);
         self.trace_states.write_many(&main_and_aux_trace_states);
+        // trace states are serialized with a 16-bit length prefix
+        assert!(
+            self.trace_states.len() <= u16::MAX as usize,
+            "size of trace states cannot exceed {} bytes, but was {}",
+            u16::MAX,
+            self.trace_states.len()
+        );
 
         // save the Lagrange kernel evaluation frame (if any)
         {
@@ -95,10 +103,18 @@ impl OodFrame {
     /// Panics if:
     /// * Constraint evaluations have already been set.
     /// * `evaluations` is an empty vector.
+    /// * The serialized evaluations are longer than 65535 bytes.
     pub fn set_constraint_evaluations<E: FieldElement>(&mut self, evaluations: &[E]) {
         assert!(self.evaluations.is_empty(), "constraint evaluations have already been set");
         assert!(!evaluations.is_empty(), "cannot set to empty constraint evaluations");
         self.evaluations.write_many(evaluations);
+        // constraint evaluations are serialized with a 16-bit length prefix
+        assert!(
+            self.evaluations.len() <= u16::MAX as usize,
+            "size of constraint evaluations cannot exceed {} bytes, but was {}",
+            u16::MAX,
+            self.evaluations.len()
+        );
     }
 
     // PARSER
